@@ -1,6 +1,8 @@
 import CogentModel.Model.GeneticCode
 import CogentModel.Spec.GeneticCode
 import CogentModel.Proofs.GeneticCode
+import CogentModel.Proofs.GeneticCodeExt
+import CogentModel.Spec.NCBITables
 /-!
 # C12 — property theorems: translation and complementing follow the genetic-code tables
 
@@ -231,6 +233,105 @@ theorem old_get_translation_counter : ∃ code ∈ oldCodes,
       outcomeToExcept (GCSpec.getTranslation code.2.1 ['A', 'T', 'G', 'A', 'A', 'A', 'T', 'A', 'A'] false true true) := by
   decide +kernel
 
+/-! ## the tables ARE the NCBI tables -/
+
+/-- The code tables and start-codon maps extracted from both modules are exactly the NCBI genetic codes written
+down independently in `Spec/NCBITables.lean` (standard code by amino acid + NCBI's "differences from the standard
+code" + initiation codons), for every transl_table id the library offers, in the same order. -/
+theorem tables_are_ncbi : newCodes = NCBI.tables ∧ oldCodes = NCBI.tables := by decide +kernel
+
+example : NCBI.tables.length = 27 ∧ (NCBI.tableOf [("TGA", 'W')]).length = 64 := by decide
+
+/-! ## beyond upper-case TCAG: RNA, lower case, gapped / ambiguous codons -/
+
+/-- New `translate` (plus strand) on ANY text of plain characters (the six alphabet characters or any other ASCII
+character with code point ≥ 6), every code, every start: a canonical codon gives its table entry, a codon of
+`T C A G -` with at least one gap gives `'-'`, anything else — ambiguity codes, `?`, `U`, lower case — gives `'X'`. -/
+theorem translate_general_spec (code : Nat × List Char × List Char) (hc : code ∈ newCodes)
+    (s : List Char) (start : Nat) (hp : Plain s) :
+    newTranslate newDna code.2.1 s start false = GCSpec.translateNew code.2.1 (s.drop start) :=
+  new_translate_plus_general code.2.1 (plus_codon code hc)
+    ⟨(plus_sentinels code hc).1, (plus_sentinels code hc).2.1⟩ s start hp
+
+example : Plain ['A', 'T', 'G', 'A', '-', '-', 'a', 'U', 'G', 'N', 'N', 'N', '?', 'A', 'T'] := by decide
+
+/-- Old `translate` on ANY text (model assumption: ASCII), every code: the empty text gives the empty string, a start
+at or beyond the end raises ValueError, otherwise every codon is normalised (upper case, `U → T`) and gives its table
+entry if it is then canonical and `'X'` if not (RNA and lower case are translated; gaps, ambiguity codes → `'X'`). -/
+theorem old_translate_general_spec (code : Nat × List Char × List Char) (hc : code ∈ oldCodes)
+    (s : List Char) (start : Nat) (_hascii : ∀ c ∈ s, c.toNat < 128) :
+    oldTranslate code.2.1 s start =
+      if s = [] then .ok []
+      else if s.length ≤ start then .error .valueError
+      else .ok (GCSpec.translateOld code.2.1 (s.drop start)) := by
+  unfold oldTranslate
+  cases s with
+  | nil => simp
+  | cons x xs =>
+    simp only [List.isEmpty_cons, Bool.false_eq_true, if_false, List.cons_ne_nil]
+    by_cases hle : (x :: xs).length ≤ start
+    · have : start + 1 > (x :: xs).length := by omega
+      rw [if_pos this, if_pos hle]
+    · have : ¬ (start + 1 > (x :: xs).length) := by omega
+      rw [if_neg this, if_neg hle, old_chunks_general code.2.1 (old_codon code hc)]
+
+example : GCSpec.translateOld (NCBI.tableOf []) ['a', 'u', 'g', 'A', 'A', 'R', '-', '-', '-'] = ['M', 'X', 'X'] := by decide
+
+/-! ## collections and alignments, row by row (rows: canonical, non-empty, length a multiple of three) -/
+
+/-- `has_terminal_stop` and `trim_stop_codons` of a collection (old and new `SequenceCollection`) and
+`AlignmentI.trim_stop_codons`, with the genetic code passed through: the answer is "some row's translation ends in a
+stop"; every row whose translation ends in a stop loses its last codon (collections) / has it replaced by three gaps
+(alignments), all other rows are unchanged. -/
+theorem collection_trim_rowwise (rows : List (List Char)) (h : CodonRows rows) (strict : Bool) :
+    (∀ code ∈ oldCodes,
+      collHasTerminalStop (oldGetItem code.2.1) rows strict = .ok (rows.any (endsWithStop code.2.1)) ∧
+      collTrimStopCodons (oldGetItem code.2.1) rows strict = .ok (rows.map (specTrimRow code.2.1)) ∧
+      alnTrimStopCodons (oldGetItem code.2.1) rows strict = .ok (rows.map (specAlnTrimRow code.2.1))) ∧
+    (∀ code ∈ newCodes,
+      collHasTerminalStop (newGetItem newDna code.2.1) rows strict = .ok (rows.any (endsWithStop code.2.1)) ∧
+      collTrimStopCodons (newGetItem newDna code.2.1) rows strict = .ok (rows.map (specTrimRow code.2.1))) :=
+  ⟨fun code hc => ⟨coll_has_terminal_stop' _ _ (old_codon code hc) strict rows h,
+      coll_trim' _ _ (old_codon code hc) strict rows h, aln_trim' _ _ (old_codon code hc) strict rows h⟩,
+   fun code hc => ⟨coll_has_terminal_stop' _ _ (new_getitem_codon code hc) strict rows h,
+      coll_trim' _ _ (new_getitem_codon code hc) strict rows h⟩⟩
+
+example : CodonRows [['A', 'T', 'G', 'T', 'A', 'A'], ['A', 'T', 'G', 'C', 'C', 'C']] := by decide
+
+/-- New `SequenceCollection.get_translation` is the sequence-level specification mapped over the rows, for every
+code, all eight option combinations and any canonical non-empty rows (any lengths); the first rejected row rejects
+the call. -/
+theorem collection_translation_rowwise (code : Nat × List Char × List Char) (hc : code ∈ newCodes)
+    (rows : List (List Char)) (h : ∀ r ∈ rows, Canon r ∧ r ≠ []) (io is_ ts : Bool) :
+    newCollGetTranslation newDna code.2.1 rows io is_ ts = specCollTranslation code.2.1 rows io is_ ts :=
+  new_coll_rowwise code.2.1 (plus_codon code hc) (new_getitem_codon code hc)
+    (aa_not_gap_x code (List.mem_append_left _ hc)) rows h io is_ ts
+
+example : ∀ r ∈ [['A', 'T', 'G', 'T', 'A', 'A'], ['A', 'T', 'G', 'C']], Canon r ∧ r ≠ [] := by decide
+
+/-- Old `SequenceCollection.get_translation` (pre-pass `trim_stop_codons`, then `Sequence.get_translation` per row) is
+row-wise the specification — except for `include_stop = trim_stop = True` (known) and for rows ending in TWO stop
+codons, which the pre-pass and the per-row call trim one after the other. -/
+theorem old_collection_translation_rowwise_partial (code : Nat × List Char × List Char) (hc : code ∈ oldCodes)
+    (rows : List (List Char)) (h : CodonRows rows) (io is_ ts : Bool) (hopt : ¬ (is_ = true ∧ ts = true))
+    (hdouble : ∀ r ∈ rows, endsWithStop code.2.1 r = true →
+      3 < r.length ∧ endsWithStop code.2.1 (r.take (r.length - 3)) = false) :
+    oldCollGetTranslation code.2.1 rows io is_ ts = specCollTranslation code.2.1 rows io is_ ts :=
+  old_coll_rowwise code.2.1 (old_codon code hc) rows h io is_ ts hopt hdouble
+
+example : ¬ (false = true ∧ true = true) ∧ CodonRows [['A', 'T', 'G', 'A', 'A', 'A', 'T', 'A', 'A']] := by decide
+
+/- FULL STATEMENT (not proved): `old_collection_translation_rowwise` = the statement above without `hdouble` (and
+   `hopt`).  False for the code as written: the collection-level pre-pass removes one terminal stop and
+   `Sequence.get_translation(trim_stop=True)` then removes another, so `ATGTAATAA` translates to `M` where the
+   sequence-level call (and the new-style collection) rejects the internal stop. -/
+
+/-- Witness: the single row `ATGTAATAA`, default options, code 1: old collection gives `["M"]`, the specification rejects. -/
+theorem old_collection_double_trim_counter : ∃ code ∈ oldCodes,
+    oldCollGetTranslation code.2.1 [['A', 'T', 'G', 'T', 'A', 'A', 'T', 'A', 'A']] false false true ≠
+      specCollTranslation code.2.1 [['A', 'T', 'G', 'T', 'A', 'A', 'T', 'A', 'A']] false false true := by
+  decide +kernel
+
 /-! ## complement, reverse complement, ambiguity codes -/
 
 /-- the IUPAC symbols of a molecular type: canonical characters, gap, degenerate symbols, missing -/
@@ -296,5 +397,32 @@ theorem resolve_what_inverse :
       newResolve mt (newDegenerateFromSeq mt S) = .ok (toSet S)) := by decide +kernel
 
 example : ['C', 'A'] ∈ subsets newDna.chars ∧ 'M' ∈ degenSymbols newDna := by decide
+
+/-! ## sequence objects: `rc()` on any view (C01's wrapper model, instantiated with the real complement tables) -/
+
+/-- For the complement tables of all four molecular types and every well-formed nucleic-acid sequence object
+(`Model/SeqWrap.lean`: a parent string with a view — sliced, strided, already reversed), the string displayed by
+`seq.rc()` is the molecular type's reverse complement of the string displayed by `seq`, and `seq.rc().rc()` displays
+the same string as `seq`.  (The tables are involutions on EVERY character: closed on their keys, identity elsewhere.) -/
+theorem seq_rc_displayed (s : SeqWrap.Seq) (h : SeqWrap.WF s) (hn : s.nucleic = true) :
+    (SeqWrap.str (oldComplChar oldDna) (SeqWrap.rc s) = oldRc oldDna (SeqWrap.str (oldComplChar oldDna) s) ∧
+     SeqWrap.str (oldComplChar oldDna) (SeqWrap.rc (SeqWrap.rc s)) = SeqWrap.str (oldComplChar oldDna) s) ∧
+    (SeqWrap.str (oldComplChar oldRna) (SeqWrap.rc s) = oldRc oldRna (SeqWrap.str (oldComplChar oldRna) s) ∧
+     SeqWrap.str (oldComplChar oldRna) (SeqWrap.rc (SeqWrap.rc s)) = SeqWrap.str (oldComplChar oldRna) s) ∧
+    (SeqWrap.str (newComplChar newDna) (SeqWrap.rc s) = newRc newDna (SeqWrap.str (newComplChar newDna) s) ∧
+     SeqWrap.str (newComplChar newDna) (SeqWrap.rc (SeqWrap.rc s)) = SeqWrap.str (newComplChar newDna) s) ∧
+    (SeqWrap.str (newComplChar newRna) (SeqWrap.rc s) = newRc newRna (SeqWrap.str (newComplChar newRna) s) ∧
+     SeqWrap.str (newComplChar newRna) (SeqWrap.rc (SeqWrap.rc s)) = SeqWrap.str (newComplChar newRna) s) := by
+  obtain ⟨k1, k2, k3, k4⟩ := compl_keys_invol
+  have c1 := old_compl_invol_all oldDna k1
+  have c2 := old_compl_invol_all oldRna k2
+  have c3 := new_compl_invol_all newDna k3
+  have c4 := new_compl_invol_all newRna k4
+  exact ⟨⟨by rw [SeqWrap.str_rc' _ c1 s h hn, specRc_eq_oldRc], SeqWrap.rc_rc' _ c1 s h hn⟩,
+    ⟨by rw [SeqWrap.str_rc' _ c2 s h hn, specRc_eq_oldRc], SeqWrap.rc_rc' _ c2 s h hn⟩,
+    ⟨by rw [SeqWrap.str_rc' _ c3 s h hn, specRc_eq_newRc], SeqWrap.rc_rc' _ c3 s h hn⟩,
+    ⟨by rw [SeqWrap.str_rc' _ c4 s h hn, specRc_eq_newRc], SeqWrap.rc_rc' _ c4 s h hn⟩⟩
+
+example : SeqWrap.WF (SeqWrap.ofString ['A', 'C', 'G', 'G', 'T', 'R', '-'] true) := SeqWrap.wf_ofString _ _
 
 end CogentModel.C12
